@@ -66,6 +66,16 @@ UNITS.append(dict(
 ))
 
 UNITS.append(dict(
+    id="oh.dated",
+    package="",
+    owner="opening-hours/src/filter/date_filter.rs",
+    harness="kani/oh/verif_dated.rs",
+    modname="verif_dated",
+    modpath="filter::date_filter::verif_dated",
+    deps=["oh.date_filter", "syntax.extended_time"],
+))
+
+UNITS.append(dict(
     id="oh.time_filter",
     package="",
     owner="opening-hours/src/filter/time_filter.rs",
@@ -118,6 +128,13 @@ VERUS_UNITS = [
         template="verus/extended_time.verus.rs",
         kani_unit="syntax.extended_time",
         lemmas=["C19.verus.lemma_roundtrip", "C19.verus.lemma_lex_order_is_minute_order", "C19.verus.exec_roundtrip"],
+    ),
+    dict(
+        id="verus_compact_calendar",
+        props=["C15", "C04"],
+        template="verus/compact_calendar.verus.rs",
+        kani_unit="calendar",
+        lemmas=["C15.verus.lemma_set_bit", "C15.verus.lemma_zero_bit", "C15.verus.lemma_insert_then_contains"],
     ),
 ]
 
